@@ -12,7 +12,8 @@ use std::{
     ops::{Deref, DerefMut},
 };
 
-use std::collections::HashMap; // VERIF MODEL: std map instead of ahash (never executed by a harness)
+use self::restable::ResTable; // VERIF MODEL: fixed-capacity association list instead of AHashMap
+pub use self::restable::TypeKey;
 
 use crate::cell::{AtomicRef, AtomicRefCell, AtomicRefMut};
 use crate::SystemData;
@@ -22,6 +23,7 @@ use self::entry::create_entry;
 mod data;
 mod entry;
 mod res_downcast;
+mod restable;
 #[macro_use]
 mod setup;
 
@@ -160,13 +162,25 @@ where
 /// according to Rust's typical borrowing model (one writer xor multiple
 /// readers).
 #[cfg(feature = "parallel")]
-pub trait Resource: Any + Send + Sync + 'static {}
+pub trait Resource: Any + Send + Sync + 'static {
+    /// VERIF MODEL: the `TypeKey` of the concrete type (stands in for `Any::type_id`).
+    #[doc(hidden)]
+    fn verif_type_key(&self) -> TypeKey {
+        TypeKey::of::<Self>()
+    }
+}
 
 /// A resource is a data slot which lives in the `World` can only be accessed
 /// according to Rust's typical borrowing model (one writer xor multiple
 /// readers).
 #[cfg(not(feature = "parallel"))]
-pub trait Resource: Any + 'static {}
+pub trait Resource: Any + 'static {
+    /// VERIF MODEL: the `TypeKey` of the concrete type (stands in for `Any::type_id`).
+    #[doc(hidden)]
+    fn verif_type_key(&self) -> TypeKey {
+        TypeKey::of::<Self>()
+    }
+}
 
 #[cfg(feature = "parallel")]
 impl<T> Resource for T where T: Any + Send + Sync {}
@@ -183,7 +197,7 @@ impl<T> Resource for T where T: Any {}
 /// [`Resource`]: trait.Resource.html
 #[derive(Clone, Debug, Eq, Hash, Ord, PartialEq, PartialOrd)]
 pub struct ResourceId {
-    type_id: TypeId,
+    type_id: TypeKey, // VERIF MODEL: a per-type integer constant instead of `TypeId`
     dynamic_id: u64,
 }
 
@@ -196,7 +210,7 @@ impl ResourceId {
 
     /// Create a new resource id from a raw type ID.
     #[inline]
-    pub fn from_type_id(type_id: TypeId) -> Self {
+    pub fn from_type_id(type_id: TypeKey) -> Self {
         ResourceId::from_type_id_and_dynamic_id(type_id, 0)
     }
 
@@ -211,13 +225,13 @@ impl ResourceId {
     /// identified only by their type.
     #[inline]
     pub fn new_with_dynamic_id<T: Resource>(dynamic_id: u64) -> Self {
-        ResourceId::from_type_id_and_dynamic_id(TypeId::of::<T>(), dynamic_id)
+        ResourceId::from_type_id_and_dynamic_id(TypeKey::of::<T>(), dynamic_id)
     }
 
     /// Create a new resource id from a raw type ID and a "dynamic ID" (see type
     /// documentation).
     #[inline]
-    pub fn from_type_id_and_dynamic_id(type_id: TypeId, dynamic_id: u64) -> Self {
+    pub fn from_type_id_and_dynamic_id(type_id: TypeKey, dynamic_id: u64) -> Self {
         ResourceId {
             type_id,
             dynamic_id,
@@ -257,7 +271,7 @@ impl ResourceId {
 /// Resources are identified by `ResourceId`s, which consist of a `TypeId`.
 #[derive(Default)]
 pub struct World {
-    resources: HashMap<ResourceId, AtomicRefCell<Box<dyn Resource>>>,
+    resources: ResTable,
 }
 
 impl World {
@@ -330,7 +344,7 @@ impl World {
     where
         R: Resource,
     {
-        create_entry(self.resources.entry(ResourceId::new::<R>()))
+        create_entry(&mut self.resources, ResourceId::new::<R>())
     }
 
     /// Gets `SystemData` `T` from the `World`. This can be used to retrieve
